@@ -87,7 +87,7 @@ class PutModel(Monitor):
         rc = self.remotes[spec["dest"]]
         mode = spec["mode"] if spec["mode"] is not None else rc["mode"]
         closure = spec["closure"] if spec["closure"] is not None else rc["closure"]
-        idw = max(w.cfg.idw_a, rc["idw"])
+        idw = max(w.cfg.idw_a, spec.get("dest_idw") or rc["idw"])
         hdr = 4 + 2 * idw + w.cfg.seqw
         derived = rc["mpl"] - hdr - 4 - (2 if rc["crc"] else 0)
         eff = derived if rc["seg"] is None else min(rc["seg"], derived)
@@ -241,10 +241,21 @@ def scenario(t, skip_premature: bool):
         premature = h.state.name != "IDLE"
         if h.num_packets_ready:
             return
-        dest_id = {"peer": b.eid, "ghost": UnsignedByteField(3, g_idw), "unknown": UnsignedByteField(9, cfg.idw_a)}[dest]
+        # the request may name the destination with another id width than the MIB entry (lookup is by value);
+        # only widths whose header still fits the remote's maximum packet length (precondition of the properties)
+        rcw = remotes.get(dest)
+        dest_idw = None
+        wsel = [None, 1, 2, 4, 8][t.weighted([4, 1, 1, 1, 1], "put dest id width")]
+        if rcw is not None and wsel is not None:
+            hdr_w = 4 + 2 * max(cfg.idw_a, wsel) + cfg.seqw
+            if hdr_w + 1 + 16 + (2 if rcw["crc"] else 0) + 2 <= rcw["mpl"]:
+                dest_idw = wsel
+        dest_id = {"peer": b.eid if dest_idw is None else UnsignedByteField(2, dest_idw),
+                   "ghost": UnsignedByteField(3, g_idw if dest_idw is None else dest_idw),
+                   "unknown": UnsignedByteField(9, cfg.idw_a)}[dest]
         src_path = MISSING if file == "missing" else f"src/{file}.bin"
         req = PutRequest(dest_id, Path(src_path), Path(f"dst/o{counter['dst']}.bin"), mode, closure)
-        spec = {"dest": dest, "file": file, "mode": mode, "closure": closure, "size": sizes.get(file, 0)}
+        spec = {"dest": dest, "file": file, "mode": mode, "closure": closure, "size": sizes.get(file, 0), "dest_idw": dest_idw}
         if premature and skip_premature:
             return
         rec = w2.call(a, hk, "put", arg=req)
